@@ -107,6 +107,24 @@ def ObtainQuantity(
             try:
                 return quantities_cache[tuple(key)]
             except KeyError:
+                # Not cached yet: each unit must belong to its category (legacy units are fixed).
+                fixed_unit = OrderedDict()
+                for category, (composing_unit, exp) in unit.items():
+                    if isinstance(composing_unit, str):
+                        try:
+                            unit_database.CheckCategoryUnit(category, composing_unit)
+                        except InvalidUnitError:
+                            is_legacy, composing_unit = FixUnitIfIsLegacy(composing_unit)
+                            if not is_legacy:
+                                raise
+                            unit_database.CheckCategoryUnit(category, composing_unit)
+                            fixed_unit[category] = [composing_unit, exp]
+                if fixed_unit:
+                    return ObtainQuantity(
+                        OrderedDict((k, fixed_unit.get(k, v)) for (k, v) in unit.items()),
+                        None,
+                        unknown_unit_caption,
+                    )
                 quantity = quantities_cache[tuple(key)] = Quantity(unit, None, unknown_unit_caption)
                 return quantity
 
